@@ -66,3 +66,26 @@ Proof. vm_compute. reflexivity. Qed.
 (** scan example *)
 Example ex_scan : exclusive_scan 0 [2; 0; 3; 1] = ([0; 2; 2; 5], 6).
 Proof. reflexivity. Qed.
+
+(** Observation O2 (NOTES.md): under init_charge, without an
+    extend-from-primaries step in between, InitTracksExecutor can read a STALE
+    [parents] entry: the slot it names holds a track that is neither the
+    parent of the initializer nor its in-place sibling.  Witness: 2 slots. *)
+Definition o2_cfg : config := mkCfg 2 8 true 1.
+Definition o2_ops : list op :=
+  [ InsertPrimaries [mkPrim 0 0 false; mkPrim 0 0 false]; InitializeTracks;
+    PhysicsOutcome [mkOut false [2]; mkOut false []]; ExtendFromSecondaries;
+    InitializeTracks;                                  (* no vacancy: parents not cleared *)
+    PhysicsOutcome [mkOut false []; mkOut true [2]]; ExtendFromSecondaries ].
+
+Lemma parent_slot_stale_refuted :
+  exists s sid ini p,
+    exec o2_cfg (init_state o2_cfg) o2_ops = Some s /\ ph s = Ready /\
+    init_thread o2_cfg s (partition_initializers (stack s) (c_init (cnt s)) 1) 1 0 = (sid, ini, Some p) /\
+    tpar ini <> Some (tid (str (nth p (slots s) dflt_slot))) /\
+    tpar ini <> tpar (str (nth p (slots s) dflt_slot)).
+Proof.
+  eexists. eexists. eexists. eexists.
+  split; [vm_compute; reflexivity|]. split; [reflexivity|]. split; [vm_compute; reflexivity|].
+  split; vm_compute; discriminate.
+Qed.
